@@ -1,29 +1,269 @@
-// C06 correspondence driver: the agent's real eBPF key/value encoders and decoders.
+// C06 correspondence driver: the agent's REAL map operations (BpfObject::update_policy_elem_bpf_map,
+// update_redirect_policy, update_skip_process_map, remove_audit_map_entry, lookup_audit), its
+// encoders (hook H5) and ip_to_string / string_to_ip.
 //
-// stdin: one request per line; stdout: one answer per request, prefixed "@@ " (string_to_ip logs its
-// warnings to stdout through the agent's console logger; those lines are not answers).
+// BpfObject wraps a loaded aya::Ebpf and talks to the kernel through bpf(2).  This binary defines the
+// C symbol `syscall` itself: aya's (and std's) `libc::syscall(..)` calls therefore land here; SYS_bpf
+// is answered by a small in-process stand-in that keeps maps and RECORDS every map operation (command,
+// map name, key bytes, value bytes, flags); every other system call is forwarded unchanged with the
+// `syscall` instruction.  The BPF object file given by LOAD carries only the four map definitions
+// (tools/checks/c06.py compiles it with `clang -target bpf` from the geometry the C side reports), so
+// BpfObject::from_ebpf_file runs for real and no program is ever loaded or attached.
+// The recorded operations are what tools/checks/c06.py replays, byte for byte, on the user-space build
+// of the unmodified eBPF C program.
 //
-//   K ip port          destination_entry::from_ipv4(ip, port).to_array()            -> @@ [w0..w5]
-//   PV local_port      the policy value update_policy_elem_bpf_map / update_redirect_policy build:
-//                      destination_entry::from_ipv4(string_to_ip(constants::PROXY_AGENT_IP), local_port)
-//   S pid              sock_addr_skip_process_entry::from_pid(pid).to_array()        -> @@ [w0]
-//   AK port            sock_addr_audit_key::from_source_port(port).to_array()        -> @@ [w0,w1]
-//   AE w0..w4 m0..m4   sock_addr_audit_entry::from_array([w0..w4]) turned into an AuditEntry the way
-//                      BpfObject::lookup_audit does (m_i = which sock_addr_audit_entry field feeds the
-//                      i-th AuditEntry field, as tools/gen_consts.py reads it from lookup_audit's
-//                      struct literal; the casts are lookup_audit's), then the AuditEntry accessors
-//                      -> @@ [logon_id, process_id, is_admin, destination_ipv4, destination_port,
-//                             "a.b.c.d" (destination_ipv4_addr), destination_port_in_host_byte_order]
-//   AKR w0 w1          sock_addr_audit_key::from_array([w0,w1]).to_array()
-//   I2S ip             redirector::ip_to_string(ip)                                   -> @@ "..."
-//   S2I hex            redirector::string_to_ip(utf8 text given as hex)               -> @@ n
+// stdin: one request per line; stdout: one answer per request, prefixed "@@ " (the agent logs to stdout).
+//   LOAD path                      BpfObject::from_ebpf_file(path)                 -> @@ "ok" | "error text"
+//   POLICY_ELEM lp ip port         update_policy_elem_bpf_map("x", lp, ip, port)   -> @@ {"ok":bool,"ops":[..]}
+//   REDIRECT ip port lp r          update_redirect_policy(ip, port, lp, r != 0)    -> @@ {"ok":true,"ops":[..]}
+//   SKIP pid                       update_skip_process_map(pid)
+//   REMOVE_AUDIT sport             remove_audit_map_entry(sport)
+//   LOOKUP sport                   lookup_audit(sport) on an empty audit_map (records the key it asks for)
+//   DECODE v0..v4                  lookup_audit(1) with [v0..v4] stored under the key the agent asks for
+//                                  -> @@ {"ok":true,"entry":[logon_id, process_id, is_admin, destination_ipv4,
+//                                         destination_port, "a.b.c.d", port_in_host_byte_order],"ops":[..]}
+//   every op = [cmd, map, [key words], [value words], flags]   (cmd: "update" | "delete" | "lookup")
+//   the stand-in's maps are emptied before every request: each answer is a function of its request.
+//   K ip port | PV lp | S pid | AK port | AKR w0 w1   the ebpf_obj constructors' to_array() images
+//   I2S ip                         redirector::ip_to_string(ip)                    -> @@ "..."
+//   S2I hex                        redirector::string_to_ip(utf8 text given as hex)-> @@ n
 use gpa::common::constants;
 use gpa::redirector::verif_ebpf::{
-    destination_entry, sock_addr_audit_entry, sock_addr_audit_key, sock_addr_skip_process_entry,
+    destination_entry, sock_addr_audit_key, sock_addr_skip_process_entry,
 };
-use gpa::redirector::{ip_to_string, string_to_ip, AuditEntry};
+use gpa::redirector::{ip_to_string, string_to_ip, AuditEntry, BpfObject};
+use std::collections::HashMap;
 use std::io::{self, BufRead, Write};
+use std::path::PathBuf;
+use std::sync::Mutex;
 
+// ------------------------------------------------------------------------------------------------
+// the stand-in for bpf(2)
+// ------------------------------------------------------------------------------------------------
+const SYS_BPF: i64 = 321;
+const BPF_MAP_CREATE: i64 = 0;
+const BPF_MAP_LOOKUP_ELEM: i64 = 1;
+const BPF_MAP_UPDATE_ELEM: i64 = 2;
+const BPF_MAP_DELETE_ELEM: i64 = 3;
+const BPF_MAP_GET_NEXT_KEY: i64 = 4;
+
+struct FakeMap {
+    name: String,
+    key_size: usize,
+    value_size: usize,
+    entries: Vec<(Vec<u8>, Vec<u8>)>,
+}
+
+struct Op {
+    cmd: &'static str,
+    map: String,
+    key: Vec<u8>,
+    value: Vec<u8>,
+    flags: u64,
+}
+
+struct Kernel {
+    maps: HashMap<i32, FakeMap>,
+    ops: Vec<Op>,
+    unknown: Vec<i64>,
+}
+
+static KERNEL: Mutex<Option<Kernel>> = Mutex::new(None);
+
+unsafe fn raw_syscall(n: i64, a1: i64, a2: i64, a3: i64, a4: i64, a5: i64, a6: i64) -> i64 {
+    let ret: i64;
+    core::arch::asm!(
+        "syscall",
+        inlateout("rax") n => ret,
+        in("rdi") a1, in("rsi") a2, in("rdx") a3, in("r10") a4, in("r8") a5, in("r9") a6,
+        lateout("rcx") _, lateout("r11") _,
+        options(nostack)
+    );
+    ret
+}
+
+unsafe fn set_errno(e: i32) {
+    *libc::__errno_location() = e;
+}
+
+unsafe fn rd_u32(p: *const u8, off: usize) -> u32 {
+    std::ptr::read_unaligned(p.add(off) as *const u32)
+}
+unsafe fn rd_u64(p: *const u8, off: usize) -> u64 {
+    std::ptr::read_unaligned(p.add(off) as *const u64)
+}
+
+unsafe fn fake_bpf(cmd: i64, attr: *const u8) -> i64 {
+    let mut guard = KERNEL.lock().unwrap();
+    let k = guard.get_or_insert_with(|| Kernel {
+        maps: HashMap::new(),
+        ops: Vec::new(),
+        unknown: Vec::new(),
+    });
+    match cmd {
+        BPF_MAP_CREATE => {
+            // union bpf_attr: map_type, key_size, value_size, max_entries, map_flags, inner_map_fd,
+            // numa_node, map_name[16]
+            let key_size = rd_u32(attr, 4) as usize;
+            let value_size = rd_u32(attr, 8) as usize;
+            let name_bytes = std::slice::from_raw_parts(attr.add(28), 16);
+            let name: String = name_bytes
+                .iter()
+                .take_while(|b| **b != 0)
+                .map(|b| *b as char)
+                .collect();
+            // a real descriptor, so that aya's OwnedFd closes something that is ours
+            let fd = libc::open(b"/dev/null\0".as_ptr() as *const libc::c_char, libc::O_RDONLY);
+            if fd < 0 {
+                return -1;
+            }
+            k.maps.insert(
+                fd,
+                FakeMap {
+                    name,
+                    key_size,
+                    value_size,
+                    entries: Vec::new(),
+                },
+            );
+            fd as i64
+        }
+        BPF_MAP_LOOKUP_ELEM | BPF_MAP_UPDATE_ELEM | BPF_MAP_DELETE_ELEM => {
+            // { __u32 map_fd; __aligned_u64 key; __aligned_u64 value; __u64 flags; }
+            let fd = rd_u32(attr, 0) as i32;
+            let keyp = rd_u64(attr, 8) as *const u8;
+            let valp = rd_u64(attr, 16) as *mut u8;
+            let flags = rd_u64(attr, 24);
+            let Kernel { maps, ops, .. } = k;
+            let m = match maps.get_mut(&fd) {
+                Some(m) => m,
+                None => {
+                    set_errno(libc::EBADF);
+                    return -1;
+                }
+            };
+            let key = std::slice::from_raw_parts(keyp, m.key_size).to_vec();
+            let pos = m.entries.iter().position(|(k2, _)| *k2 == key);
+            match cmd {
+                BPF_MAP_LOOKUP_ELEM => {
+                    ops.push(Op { cmd: "lookup", map: m.name.clone(), key, value: Vec::new(), flags });
+                    match pos {
+                        Some(i) => {
+                            std::ptr::copy_nonoverlapping(m.entries[i].1.as_ptr(), valp, m.value_size);
+                            0
+                        }
+                        None => {
+                            set_errno(libc::ENOENT);
+                            -1
+                        }
+                    }
+                }
+                BPF_MAP_UPDATE_ELEM => {
+                    let value = std::slice::from_raw_parts(valp as *const u8, m.value_size).to_vec();
+                    ops.push(Op { cmd: "update", map: m.name.clone(), key: key.clone(), value: value.clone(), flags });
+                    match pos {
+                        Some(i) => m.entries[i].1 = value,
+                        None => m.entries.push((key, value)),
+                    }
+                    0
+                }
+                _ => {
+                    ops.push(Op { cmd: "delete", map: m.name.clone(), key, value: Vec::new(), flags });
+                    match pos {
+                        Some(i) => {
+                            m.entries.remove(i);
+                            0
+                        }
+                        None => {
+                            set_errno(libc::ENOENT);
+                            -1
+                        }
+                    }
+                }
+            }
+        }
+        BPF_MAP_GET_NEXT_KEY => {
+            set_errno(libc::ENOENT);
+            -1
+        }
+        other => {
+            // program / BTF loading, feature probes, ...: not available here
+            k.unknown.push(other);
+            set_errno(libc::EPERM);
+            -1
+        }
+    }
+}
+
+/// The C library's `syscall(2)` wrapper, replaced for this binary (x86-64 System V: a variadic callee
+/// receives its integer arguments exactly like a fixed-arity one).
+#[no_mangle]
+pub unsafe extern "C" fn syscall(n: i64, a1: i64, a2: i64, a3: i64, a4: i64, a5: i64, a6: i64) -> i64 {
+    if n == SYS_BPF {
+        return fake_bpf(a1, a2 as *const u8);
+    }
+    let ret = raw_syscall(n, a1, a2, a3, a4, a5, a6);
+    if (-4095..0).contains(&ret) {
+        set_errno((-ret) as i32);
+        return -1;
+    }
+    ret
+}
+
+fn kernel_clear() {
+    let mut guard = KERNEL.lock().unwrap();
+    if let Some(k) = guard.as_mut() {
+        for m in k.maps.values_mut() {
+            m.entries.clear();
+        }
+        k.ops.clear();
+    }
+}
+
+fn kernel_store(map: &str, key: Vec<u8>, value: Vec<u8>) {
+    let mut guard = KERNEL.lock().unwrap();
+    if let Some(k) = guard.as_mut() {
+        for m in k.maps.values_mut() {
+            if m.name == map {
+                m.entries.push((key.clone(), value.clone()));
+            }
+        }
+    }
+}
+
+fn words_of_bytes(b: &[u8]) -> String {
+    let v: Vec<String> = b
+        .chunks(4)
+        .map(|c| {
+            let mut w = [0u8; 4];
+            w[..c.len()].copy_from_slice(c);
+            u32::from_le_bytes(w).to_string()
+        })
+        .collect();
+    format!("[{}]", v.join(","))
+}
+
+fn take_ops() -> (String, Vec<(String, String, Vec<u8>)>) {
+    let mut guard = KERNEL.lock().unwrap();
+    let mut text = Vec::new();
+    let mut raw = Vec::new();
+    if let Some(k) = guard.as_mut() {
+        for o in k.ops.drain(..) {
+            text.push(format!(
+                "[\"{}\",\"{}\",{},{},{}]",
+                o.cmd,
+                o.map,
+                words_of_bytes(&o.key),
+                words_of_bytes(&o.value),
+                o.flags
+            ));
+            raw.push((o.cmd.to_string(), o.map.clone(), o.key.clone()));
+        }
+    }
+    (format!("[{}]", text.join(",")), raw)
+}
+
+// ------------------------------------------------------------------------------------------------
 fn words(a: &[u32]) -> String {
     let v: Vec<String> = a.iter().map(|x| x.to_string()).collect();
     format!("[{}]", v.join(","))
@@ -35,20 +275,37 @@ fn unhex(s: &str) -> Vec<u8> {
         .collect()
 }
 
-fn field(v: &sock_addr_audit_entry, ix: u64) -> u32 {
-    match ix {
-        0 => v.logon_id,
-        1 => v.process_id,
-        2 => v.is_root,
-        3 => v.destination_ipv4,
-        4 => v.destination_port,
-        _ => panic!("bad field index"),
+fn entry_json(e: &AuditEntry) -> String {
+    format!(
+        "[{},{},{},{},{},\"{}\",{}]",
+        e.logon_id,
+        e.process_id,
+        e.is_admin,
+        e.destination_ipv4,
+        e.destination_port,
+        e.destination_ipv4_addr(),
+        e.destination_port_in_host_byte_order()
+    )
+}
+
+fn json_str(s: &str) -> String {
+    let mut o = String::from("\"");
+    for c in s.chars() {
+        match c {
+            '"' => o.push_str("\\\""),
+            '\\' => o.push_str("\\\\"),
+            c if (c as u32) < 0x20 => o.push_str(&format!("\\u{:04x}", c as u32)),
+            c => o.push(c),
+        }
     }
+    o.push('"');
+    o
 }
 
 fn main() {
     let stdin = io::stdin();
     let stdout = io::stdout();
+    let mut bpf: Option<BpfObject> = None;
     for line in stdin.lock().lines() {
         let line = line.unwrap();
         let mut it = line.split_whitespace();
@@ -58,7 +315,68 @@ fn main() {
         };
         let rest: Vec<&str> = it.collect();
         let nums = || -> Vec<u64> { rest.iter().map(|x| x.parse::<u64>().unwrap()).collect() };
+        kernel_clear();
         let answer = match op {
+            "LOAD" => match BpfObject::from_ebpf_file(&PathBuf::from(rest[0])) {
+                Ok(b) => {
+                    bpf = Some(b);
+                    kernel_clear();
+                    "\"ok\"".to_string()
+                }
+                Err(e) => json_str(&e.to_string()),
+            },
+            "POLICY_ELEM" | "REDIRECT" | "SKIP" | "REMOVE_AUDIT" | "LOOKUP" | "DECODE" => {
+                let n = nums();
+                let b = bpf.as_mut().expect("LOAD first");
+                let mut entry = String::from("null");
+                let ok = match op {
+                    "POLICY_ELEM" => b
+                        .update_policy_elem_bpf_map("x", n[0] as u16, n[1] as u32, n[2] as u16)
+                        .is_ok(),
+                    "REDIRECT" => {
+                        b.update_redirect_policy(n[0] as u32, n[1] as u16, n[2] as u16, n[3] != 0);
+                        true
+                    }
+                    "SKIP" => b.update_skip_process_map(n[0] as u32).is_ok(),
+                    "REMOVE_AUDIT" => b.remove_audit_map_entry(n[0] as u16).is_ok(),
+                    "LOOKUP" => match b.lookup_audit(n[0] as u16) {
+                        Ok(e) => {
+                            entry = entry_json(&e);
+                            true
+                        }
+                        Err(_) => false,
+                    },
+                    _ => {
+                        // learn the key the agent asks for, store the value under it, ask again
+                        let _ = b.lookup_audit(1);
+                        let (_, raw) = take_ops();
+                        let key = raw
+                            .iter()
+                            .rev()
+                            .find(|(c, m, _)| c == "lookup" && m == "audit_map")
+                            .map(|(_, _, k)| k.clone());
+                        match key {
+                            Some(key) => {
+                                let mut value = Vec::new();
+                                for w in &n[0..5] {
+                                    value.extend_from_slice(&(*w as u32).to_le_bytes());
+                                }
+                                kernel_store("audit_map", key, value);
+                                match b.lookup_audit(1) {
+                                    Ok(e) => {
+                                        entry = entry_json(&e);
+                                        true
+                                    }
+                                    Err(_) => false,
+                                }
+                            }
+                            None => false,
+                        }
+                    }
+                };
+                let (ops, _) = take_ops();
+                format!("{{\"ok\":{},\"entry\":{},\"ops\":{}}}", ok, entry, ops)
+            }
             "K" => {
                 let n = nums();
                 words(&destination_entry::from_ipv4(n[0] as u32, n[1] as u16).to_array())
@@ -80,36 +398,9 @@ fn main() {
                 let n = nums();
                 words(&sock_addr_audit_key::from_array([n[0] as u32, n[1] as u32]).to_array())
             }
-            "AE" => {
-                let n = nums();
-                let audit_value = sock_addr_audit_entry::from_array([
-                    n[0] as u32,
-                    n[1] as u32,
-                    n[2] as u32,
-                    n[3] as u32,
-                    n[4] as u32,
-                ]);
-                let e = AuditEntry {
-                    logon_id: field(&audit_value, n[5]) as u64,
-                    process_id: field(&audit_value, n[6]),
-                    is_admin: field(&audit_value, n[7]) as i32,
-                    destination_ipv4: field(&audit_value, n[8]),
-                    destination_port: field(&audit_value, n[9]) as u16,
-                };
-                format!(
-                    "[{},{},{},{},{},\"{}\",{}]",
-                    e.logon_id,
-                    e.process_id,
-                    e.is_admin,
-                    e.destination_ipv4,
-                    e.destination_port,
-                    e.destination_ipv4_addr(),
-                    e.destination_port_in_host_byte_order()
-                )
-            }
             "I2S" => {
                 let n = nums();
-                format!("\"{}\"", ip_to_string(n[0] as u32))
+                json_str(&ip_to_string(n[0] as u32))
             }
             "S2I" => {
                 let bytes = unhex(rest.first().copied().unwrap_or(""));
